@@ -154,7 +154,8 @@ def judge_fn(ctx, job, res, resps):
     mask = [i for i, v in enumerate(py) if v not in ("undef", "nonnum", "inexact")]
     for ob, resp in zip(res["obs"], resps if resps is not None else [None] * len(res["obs"])):
         ren = ob["rename"]
-        case = {"sources": job["sources"], "mod": job["mod"], "helper": job["helper"], "fn": res["fn"],
+        case = {"sources": {job["helper"]: job["sources"][job["helper"]], job["mod"]: res["min_src"]},
+                "mod": job["mod"], "helper": job["helper"], "fn": res["fn"],
                 "rename": ren, "points": res["points"], "src": res["src"]}
         status = ob["status"]
         if status == "expr":
@@ -179,11 +180,27 @@ def judge_fn(ctx, job, res, resps):
                 # the model is exact; CPython may have computed a literal-only call in floats
                 M["vals"] = [b if (a != b and close(a, b)) else a for a, b in zip(M["vals"], S["vals"])]
                 M["vals"] = [b if (a != b and close(a, b)) else a for a, b in zip(M["vals"], R["vals"])]
+                # sympy's simplification (x/x -> 1, 0*x -> 0) can only make the real result more defined than the
+                # unsimplified model expression
+                more = sum(1 for a, b in zip(M["vals"], R["vals"]) if a == "undef" and b != "undef")
+                if more:
+                    ctx.hist["simplification_more_defined_points"] = ctx.hist.get("simplification_more_defined_points", 0) + more
+                    M["vals"] = [b if a == "undef" else a for a, b in zip(M["vals"], R["vals"])]
             if not flags.get("condsAreCmp", True):
                 # a test that is not a comparison (truthiness of a number): sympy treats a bare Symbol condition
                 # specially (accepted by Piecewise, rejected by subs, folded away inside relationals); the model does not
                 # follow that, so these programs are judged by the oracle alone
                 ctx.hist["model_silent:truthiness"] = ctx.hist.get("model_silent:truthiness", 0) + 1
+                M = None
+            elif status == "raised:RecursionError" and M["status"] == "expr":
+                # sympy itself fails (e.g. Piecewise.eval recursing on  -3.0*x > 4.0*x  during subs): trusted base, the
+                # failure is visible; the model has no opinion
+                ctx.hist["model_silent:sympy_recursion"] = ctx.hist.get("model_silent:sympy_recursion", 0) + 1
+                M = None
+            elif status != "expr" and M["status"] == "expr" and has_opaque(resp["tr"]["ok"]):
+                # sqrt / log / ... of a constant outside the function's real domain: sympy returns a non-real number and
+                # Float() refuses; the model has no values for these functions
+                ctx.hist["model_silent:opaque_domain"] = ctx.hist.get("model_silent:opaque_domain", 0) + 1
                 M = None
             elif status == "expr" and M["status"] == "noexpr":
                 # sympy's constant folding can erase a sub-expression that would have been refused (a piece after a
